@@ -519,6 +519,8 @@ pub(crate) fn c11_history(kind: ShareKind, nops: usize) {
   // hot source: a parked `create` handle, or a Subject (which consults is_finished / is_closed of its subscribers)
   let subject_src = !cold && e::choose_bool();
   e::note(format!("{:?} over {} source", kind, if cold { "cold synchronous" } else if subject_src { "hot (Subject)" } else { "hot (create handle)" }));
+  let cfg = format!("{:?}/{}", kind, if cold { "cold" } else if subject_src { "subject" } else { "handle" });
+  e::cfg_begin(&cfg);
   const NS: usize = 3;
   let probes: Vec<Probe> = (0..NS).map(|_| fresh_probe()).collect();
   let mut used = 0usize;
@@ -740,6 +742,7 @@ pub(crate) fn c11_history(kind: ShareKind, nops: usize) {
       Err(why) => e::fail(&key, || format!("{} ; {}", why, detail())),
     }
   }
+  e::cfg_end(&cfg);
   e::cover("c11-path-complete");
 }
 
@@ -763,6 +766,9 @@ macro_rules! impl_group_outer {
         e::note(format!("group announced key={}", key.show()));
         Observer::<Val, Val>::next(&mut self.outer, key.clone());
         GROUPS.with(|gs| gs.borrow_mut().push((key, p)));
+        // an earlier subscriber of the same group that leaves after its first item
+        let early = fresh_probe();
+        let _ = g.clone().take(1).actual_subscribe(early);
         let _ = g.actual_subscribe(p);
       }
       fn error(self, x: Val) {
@@ -797,12 +803,23 @@ pub(crate) fn c20_group_by(max_len: u32, threads_form: bool) {
   let outer = fresh_probe();
   let flat = fresh_probe();
   let hot = e::choose_bool();
+  e::cfg_begin(&format!("key{}/{}", kind, if hot { "hot" } else { "cold" }));
   // a hot source is a parked `create` handle or a Subject (which asks its subscribers is_finished / is_closed)
   let hk = if hot { e::choose(2) } else { 0 };
+  // optionally the stream of groups is cut after n groups (only with sources that do not ask
+  // their subscriber whether it is finished): groups already handed out keep receiving
+  let outer_take: usize = if hk == 0 { e::choose(3) as usize } else { 0 };
+  if outer_take > 0 {
+    e::note(format!("stream of groups cut by take({})", outer_take));
+  }
   if !threads_form {
     let mk = |src: Obs| src.group_by::<_, Val, Subject<'static, Val, Val>>(move |v: &Val| keyfn(kind, v));
     if hot {
-      let _u = mk(cat::hot_kind(0, hk)).actual_subscribe(GroupOuter::<Subject<'static, Val, Val>> { outer, _s: Default::default() });
+      if outer_take > 0 {
+        let _u = rxrust::ops::take::TakeOp::new(mk(cat::hot_kind(0, hk)), outer_take).actual_subscribe(GroupOuter::<Subject<'static, Val, Val>> { outer, _s: Default::default() });
+      } else {
+        let _u = mk(cat::hot_kind(0, hk)).actual_subscribe(GroupOuter::<Subject<'static, Val, Val>> { outer, _s: Default::default() });
+      }
       let _f = mk(cat::hot_kind(1, hk)).flat_map(|g| g).actual_subscribe(flat);
       for ev in script.events() {
         cat::feed_hot(0, &ev);
@@ -811,13 +828,21 @@ pub(crate) fn c20_group_by(max_len: u32, threads_form: bool) {
         cat::feed_hot(1, &ev);
       }
     } else {
-      let _u = mk(cat::cold(script.items.clone(), script.term.clone(), 0)).actual_subscribe(GroupOuter::<Subject<'static, Val, Val>> { outer, _s: Default::default() });
+      if outer_take > 0 {
+        let _u = rxrust::ops::take::TakeOp::new(mk(cat::cold(script.items.clone(), script.term.clone(), 0)), outer_take).actual_subscribe(GroupOuter::<Subject<'static, Val, Val>> { outer, _s: Default::default() });
+      } else {
+        let _u = mk(cat::cold(script.items.clone(), script.term.clone(), 0)).actual_subscribe(GroupOuter::<Subject<'static, Val, Val>> { outer, _s: Default::default() });
+      }
       let _f = mk(cat::cold(script.items.clone(), script.term.clone(), 0)).flat_map(|g| g).actual_subscribe(flat);
     }
   } else {
     let mk = |src: ObsT| src.group_by::<_, Val, SubjectThreads<Val, Val>>(move |v: &Val| keyfn(kind, v));
     if hot {
-      let _u = mk(cat::hot_kind_t(0, hk)).actual_subscribe(GroupOuter::<SubjectThreads<Val, Val>> { outer, _s: Default::default() });
+      if outer_take > 0 {
+        let _u = rxrust::ops::take::TakeOp::new(mk(cat::hot_kind_t(0, hk)), outer_take).actual_subscribe(GroupOuter::<SubjectThreads<Val, Val>> { outer, _s: Default::default() });
+      } else {
+        let _u = mk(cat::hot_kind_t(0, hk)).actual_subscribe(GroupOuter::<SubjectThreads<Val, Val>> { outer, _s: Default::default() });
+      }
       let _f = mk(cat::hot_kind_t(1, hk)).flat_map_threads(|g| g).actual_subscribe(flat);
       for ev in script.events() {
         cat::feed_hot_t(0, &ev);
@@ -826,7 +851,11 @@ pub(crate) fn c20_group_by(max_len: u32, threads_form: bool) {
         cat::feed_hot_t(1, &ev);
       }
     } else {
-      let _u = mk(cat::cold_t(script.items.clone(), script.term.clone(), 0)).actual_subscribe(GroupOuter::<SubjectThreads<Val, Val>> { outer, _s: Default::default() });
+      if outer_take > 0 {
+        let _u = rxrust::ops::take::TakeOp::new(mk(cat::cold_t(script.items.clone(), script.term.clone(), 0)), outer_take).actual_subscribe(GroupOuter::<SubjectThreads<Val, Val>> { outer, _s: Default::default() });
+      } else {
+        let _u = mk(cat::cold_t(script.items.clone(), script.term.clone(), 0)).actual_subscribe(GroupOuter::<SubjectThreads<Val, Val>> { outer, _s: Default::default() });
+      }
       let _f = mk(cat::cold_t(script.items.clone(), script.term.clone(), 0)).flat_map_threads(|g| g).actual_subscribe(flat);
     }
   }
@@ -844,14 +873,19 @@ pub(crate) fn c20_group_by(max_len: u32, threads_form: bool) {
     }
   }
   let groups: Vec<(Val, Probe)> = GROUPS.with(|g| g.borrow().clone());
-  if groups.len() != keys.len() {
-    e::fail("group_by/group-count", || format!("{} groups announced for {} distinct keys; input [{}]", groups.len(), keys.len(), script.show()));
+  let announced = if outer_take > 0 { keys.len().min(outer_take) } else { keys.len() };
+  if groups.len() != announced {
+    e::fail("group_by/group-count", || format!("{} groups announced for {} distinct keys (cut after {}); input [{}]", groups.len(), keys.len(), outer_take, script.show()));
   }
-  let mut want_outer: Vec<Ev> = keys.iter().cloned().map(Ev::Next).collect();
-  match &script.term {
-    Tm::None => {}
-    Tm::Complete => want_outer.push(Ev::Complete),
-    Tm::Error(x) => want_outer.push(Ev::Err(x.clone())),
+  let mut want_outer: Vec<Ev> = keys.iter().take(announced).cloned().map(Ev::Next).collect();
+  if outer_take > 0 && keys.len() >= outer_take {
+    want_outer.push(Ev::Complete); // the cut completes the stream of groups
+  } else {
+    match &script.term {
+      Tm::None => {}
+      Tm::Complete => want_outer.push(Ev::Complete),
+      Tm::Error(x) => want_outer.push(Ev::Err(x.clone())),
+    }
   }
   let got_outer = outer.events();
   match model::compare_events(&got_outer, &want_outer) {
@@ -872,6 +906,7 @@ pub(crate) fn c20_group_by(max_len: u32, threads_form: bool) {
     Ok(t) => e::check(t, "group_by/flatten-back", || format!("flattened got [{}] expected [{}]", model::show_events(&got), script.show())),
     Err(why) => e::fail("group_by/flatten-back", || format!("{}; flattened got [{}] expected [{}]", why, model::show_events(&got), script.show())),
   }
+  e::cfg_end(&format!("key{}/{}", kind, if hot { "hot" } else { "cold" }));
   e::cover("c20-path-complete");
 }
 
@@ -1009,6 +1044,7 @@ pub(crate) fn c05_flatten_x(nsteps: usize, ninner: usize, threads_form: bool, cu
     .collect();
   e::note(format!("{:?}{} inners [{}]", op, if threads_form { " (threads)" } else { "" }, specs.iter().map(|s| match s { InnerSpec::Hot => "hot".to_string(), InnerSpec::Cold(s) => format!("cold[{}]", s.show()) }).collect::<Vec<_>>().join(", ")));
   let probe = fresh_probe();
+  e::cfg_begin(&format!("{:?}", op).chars().filter(|c| c.is_ascii_alphabetic()).collect::<String>());
   let mut unsub: Option<Box<dyn FnOnce()>> = None;
   let mut closed_q: Option<Box<dyn Fn() -> bool>> = None;
   // build and subscribe
@@ -1249,6 +1285,7 @@ fn drive_c05(op: FlatOp, specs: &[InnerSpec], nsteps: usize, limit: usize, probe
       }
     }
   }
+  e::cfg_end(&format!("{:?}", op).chars().filter(|c| c.is_ascii_alphabetic()).collect::<String>());
   if cutting {
     e::cover("c02-flatten-path-complete");
     return;
